@@ -51,7 +51,11 @@ fn replay_files(id: &str, tier: Tier) -> Vec<PathBuf> {
     for d in dirs {
         let dir = Path::new(VERIF).join(d).join(id);
         let mut w: Vec<PathBuf> = std::fs::read_dir(dir)
-            .map(|d| d.filter_map(|e| e.ok().map(|e| e.path())).filter(|p| p.extension().map(|x| x == "json").unwrap_or(false)).collect())
+            .map(|d| {
+                d.filter_map(|e| e.ok().map(|e| e.path()))
+                    .filter(|p| p.extension().map(|x| x == "json").unwrap_or(false))
+                    .collect()
+            })
             .unwrap_or_default();
         w.sort();
         v.extend(w);
@@ -69,21 +73,45 @@ fn main() {
         "check" => {
             let id = args[2].as_str();
             let tier = tier_of(args.get(3).map(|s| s.as_str()).unwrap_or("quick"));
-            let seed: u64 = std::env::var("VERIF_SEED").ok().and_then(|s| s.parse().ok()).unwrap_or(1);
+            let seed: u64 = std::env::var("VERIF_SEED")
+                .ok()
+                .and_then(|s| s.parse().ok())
+                .unwrap_or(1);
             let seed = if seed == 0 { 1 } else { seed };
-            let workers: usize = std::env::var("RV_WORKERS").ok().and_then(|s| s.parse().ok()).unwrap_or(16);
+            let workers: usize = std::env::var("RV_WORKERS")
+                .ok()
+                .and_then(|s| s.parse().ok())
+                .unwrap_or(16);
             let cases_override = std::env::var("RV_CASES").ok().and_then(|s| s.parse().ok());
             macro_rules! go {
                 ($p:ty, ) => {{
                     let pi = info::<$p>(tier);
-                    supervise(pi, SupArgs { tier, seed, workers, cases_override }, replay_files(id, tier), &|v| simplify_one::<$p>(v))
+                    supervise(
+                        pi,
+                        SupArgs {
+                            tier,
+                            seed,
+                            workers,
+                            cases_override,
+                        },
+                        replay_files(id, tier),
+                        &|v| simplify_one::<$p>(v),
+                    )
                 }};
             }
             let (mut code, mut ev) = with_prop!(id, go!());
             let fuzzable = ["C01", "C03", "C04", "C08", "C10", "C13", "C20"].contains(&id);
-            if fuzzable && code == 0 && (tier == Tier::Thorough || std::env::var("RV_FUZZ").is_ok()) {
+            if fuzzable && code == 0 && (tier == Tier::Thorough || std::env::var("RV_FUZZ").is_ok())
+            {
                 let default_runs = if id == "C04" { 150_000 } else { 60_000 };
-                let runs: u64 = std::env::var("RV_FUZZ_RUNS").ok().and_then(|s| s.parse().ok()).unwrap_or(if tier == Tier::Thorough { default_runs } else { 20_000 });
+                let runs: u64 = std::env::var("RV_FUZZ_RUNS")
+                    .ok()
+                    .and_then(|s| s.parse().ok())
+                    .unwrap_or(if tier == Tier::Thorough {
+                        default_runs
+                    } else {
+                        20_000
+                    });
                 let (c2, fz) = fuzz_stage(id, seed, runs, 16);
                 if let Some(c) = ev.get_mut("coverage") {
                     c["fuzz_stage"] = fz;
@@ -148,7 +176,13 @@ fn main() {
                         println!("  sig={} {}", v.sig, v.msg);
                         std::process::exit(1);
                     } else {
-                        println!("replay {}: property {id} held (a predicate of {} failed: sig={} {})", file.display(), v.prop, v.sig, v.msg);
+                        println!(
+                            "replay {}: property {id} held (a predicate of {} failed: sig={} {})",
+                            file.display(),
+                            v.prop,
+                            v.sig,
+                            v.msg
+                        );
                         std::process::exit(0);
                     }
                 }
